@@ -112,12 +112,14 @@ func (in *Interp) fireTimer() bool {
 	if !in.ex.cfg.VirtualTime {
 		return false
 	}
-	return in.fireEarliest()
+	return in.fireEarliest(true)
 }
 
 // fireEarliest fires the pending timer with the earliest virtual deadline (ties: arming
-// order) and advances the virtual clock to it.
-func (in *Interp) fireEarliest() bool {
+// order) and advances the virtual clock to it. An AfterFunc callback runs in a goroutine of
+// its own when asGoroutine is set (as the runtime does), otherwise inline (LetTimePass in
+// harnesses without goroutines).
+func (in *Interp) fireEarliest(asGoroutine bool) bool {
 	var best *timerRec
 	for _, t := range in.timers {
 		if t.pending && (best == nil || t.at < best.at) {
@@ -136,7 +138,12 @@ func (in *Interp) fireEarliest() bool {
 			best.ch.buf = append(best.ch.buf, zeroTime)
 		}
 	} else if best.f != nil {
-		in.callValue(best.f, nil, nil)
+		if asGoroutine && in.ex.cfg.Goroutines {
+			g := &gor{id: len(in.gors), resume: make(chan struct{}), fn: best.f}
+			in.gors = append(in.gors, g)
+		} else {
+			in.callValue(best.f, nil, nil)
+		}
 	}
 	return true
 }
